@@ -14,16 +14,28 @@ Two groups of bounded exhaustive families:
                 statement (string_builtin_schedules, table_custom_schedules, listgrader_vectors,
                 raw_results, other_graders).
   * feature_off_ignores_attempt : without the option the attempt must not matter.
+  * dimensions added by the gap review: sched_big_attempts (attempt numbers beyond 200, up to 2**16+1),
+    sched_default_options (options of the schedule classes left at their defaults, config by dict),
+    raw_list_fine_products (LIST results with fine partial grades x schedule values near 0 and 1),
+    debug_graders (debug=True), answers_inferred_from_expect (the call form of the docs: answer
+    taken from the expect attribute), registered_defaults (feature switched on through
+    register_defaults; see the end of the file), schedules handed over as other
+    kinds of callable (table_custom_schedules), more grader classes (other_graders), attempts
+    -1 / -10**6 / 1000 through a grader (string_builtin_schedules), the same input graded twice on
+    one grader object (attempt_history).
 """
 import copy
 import json
+import re
 import random
 import itertools
+import functools
 
 import numpy
 
 from mitxgraders import (StringGrader, ListGrader, SingleListGrader, FormulaGrader, NumericalGrader,
-                         SumGrader, LinearCredit, GeometricCredit, ReciprocalCredit)
+                         SumGrader, IntervalGrader, MatrixGrader, LinearCredit, GeometricCredit, ReciprocalCredit)
+from mitxgraders.baseclasses import ItemGrader
 from mitxgraders.baseclasses import AbstractGrader
 from mitxgraders.exceptions import ConfigError
 from voluptuous import Required
@@ -57,12 +69,23 @@ ASSUMPTIONS = ['the result of the same grader configured without attempt_based_c
                'LinearCredit minimum_credit values with more than four decimals are outside the grid',
                'numpy / random are re-seeded with a constant before every grader call (the graded inputs are equal or '
                'unequal for every sample, so the verdicts do not depend on the draws)',
-               'attempt numbers are Python ints; author schedules return ints or floats within [0, 1]']
+               'attempt numbers are Python ints; author schedules return ints or floats within [0, 1]',
+               'attempt numbers above 2**16 + 1 are not tried (an implementation that tabulates its values attempt by '
+               'attempt is legitimate); schedules are never called directly with attempts below 1 (the statement clamps '
+               'them in the grader)',
+               'the default factor of GeometricCredit is documented as 0.5 (docs/graders.md) and as 3/4 (class docstring, '
+               'and what the code does): either is accepted; the LinearCredit defaults (1, 4, 0.2) are documented consistently',
+               'with debug=True the <pre>...</pre> block of the debug log (and separators left at the end of the message) is '
+               'removed before judging; where the log is placed relative to the note is left open',
+               'registered defaults: only registrations that switch the feature on for the TOP-LEVEL grader are enumerated; '
+               'a schedule present only on subgraders is left open (docs: the setting "need only be applied to the grader '
+               'that is provided to edX")']
 
 ATTEMPTS_QUICK = [-3, 0] + list(range(1, 13)) + [200, 'absent', 'none']
 ATTEMPTS_SHORT = [-3, 0, 1, 2, 3, 5, 12, 200, 'absent']
 ATTEMPTS_TINY = [-3, 0, 1, 2, 5, 200, 'absent']
 ATTEMPTS_OFF = [-3, 0, 1, 2, 200, 'none']
+ATTEMPTS_FAR = [-1, -1000000, 1000]
 
 
 # --------------------------------------------------------------------------- schedules
@@ -84,6 +107,8 @@ def make_schedule(spec):
     kind = spec[0]
     if kind in ('lin', 'geo', 'rec'):
         return make_builtin(spec), None
+    if kind == 'as':
+        return make_as(spec[1], spec[2:])
     rec = []
     val = ref.VALUES[spec[1]]
     if kind == 'const':
@@ -101,6 +126,50 @@ def make_schedule(spec):
     else:
         raise HarnessError('unknown schedule %r' % (spec,))
     return sched, rec
+
+
+class MyLinear(LinearCredit):
+    """an author's subclass of a built-in schedule (nothing overridden)"""
+
+
+class MyGeometric(GeometricCredit):
+    """an author's subclass of a built-in schedule (nothing overridden)"""
+
+
+class MyReciprocal(ReciprocalCredit):
+    """an author's subclass of a built-in schedule (nothing overridden)"""
+
+
+class CallableObject(object):
+    """an author-defined schedule that is an object with __call__, not a function"""
+    def __init__(self, inner):
+        self.inner = inner
+
+    def __call__(self, attempt):
+        return self.inner(attempt)
+
+    def lookup(self, attempt):
+        return self.inner(attempt)
+
+
+def make_as(how, inner_spec):
+    """the schedule `inner_spec` handed to the grader as another kind of callable"""
+    inner, rec = make_schedule(inner_spec)
+    if how == 'subclass':
+        cls = {'lin': MyLinear, 'geo': MyGeometric, 'rec': MyReciprocal}[inner_spec[0]]
+        return cls(dict(inner.config)), rec
+    if how == 'object':
+        return CallableObject(inner), rec
+    if how == 'method':
+        return CallableObject(inner).lookup, rec
+    if how == 'partial':
+        return functools.partial(lambda scale, n: inner(n), 1), rec
+    if how == 'shared':         # the very same schedule object is also the schedule of another, older grader
+        StringGrader(answers='other', attempt_based_credit=inner)(None, 'other', attempt=4)
+        if rec is not None:
+            del rec[:]
+        return inner, rec
+    raise HarnessError('unknown kind of callable %r' % (how,))
 
 
 class ScheduleFamily(Family):
@@ -204,6 +273,139 @@ class CoexistingSchedules(Family):
                                        % (who, ref.describe_spec(spec), ref.describe_spec(self.SPECS[b] if who == 'A' else self.SPECS[a]),
                                           v, att, ex), ex, v), calls)
         return Result('own-values', True, None, calls)
+
+
+# nothing beyond 2**16: an implementation that tabulates its values attempt by attempt is legitimate, and must not be
+# driven into minutes of work (or gigabytes of table) by the check
+BIG_ATTEMPTS = [201, 202, 255, 256, 257, 500, 511, 512, 513, 999, 1000, 1001, 1023, 1024, 1025, 4095, 4096, 4097, 10000,
+                32767, 32768, 65535, 65536, 65537]
+
+
+class BigAttempts(Family):
+    """attempt numbers just beyond, and far beyond, the exhaustive range 1..200"""
+    name = 'sched_big_attempts'
+    timeout = 5.0
+    rule = ('built-in schedule configurations (LinearCredit after {1, 6} x steps {1, 6} x 5 minima [thorough: the whole 1-6 x 1-6 grid], '
+            'the GeometricCredit factors of sched_geometric, ReciprocalCredit) x 24 attempt numbers beyond the exhaustive range '
+            '(201, 202, powers of two +-1 from 256 to 65536, 500, 999-1001, 10000): the value at N, N+1 and 200 of ONE object: documented value, '
+            'within [0, 1], not below the minimum, value(N+1) <= value(N) <= value(200); non-trivial = the documented '
+            'value still differs from the value at attempt 200')
+
+    def __init__(self, specs_by_tier):
+        self.specs_by_tier = specs_by_tier
+
+    def cases(self, tier):
+        for spec in self.specs_by_tier[tier]:
+            for n in BIG_ATTEMPTS:
+                yield (list(spec), n)
+
+    def describe(self, case):
+        return {'schedule': ref.describe_spec(case[0]), 'attempt': case[1]}
+
+    def check(self, case):
+        spec, n = case
+        sched = make_builtin(spec)
+        cls = type(sched).__name__
+        try:
+            v200, v, w = sched(200), sched(n), sched(n + 1)
+        except Exception as e:
+            return Result('raised', True, viol('%s:big-attempt:raised:%s' % (cls, type(e).__name__),
+                                               'schedule raised %r at attempt %d' % (e, n), 'a number', repr(e)), 3)
+        ex, ex200 = float(ref.exact_big(spec, n)), float(ref.exact_big(spec, 200))
+        nontriv = abs(ex - ex200) > ref.EPS
+        for val in (v200, v, w):
+            if isinstance(val, bool) or not isinstance(val, (int, float)):
+                return Result('badtype', nontriv, viol('%s:big-attempt:not-a-number' % cls, 'schedule returned %r' % (val,),
+                                                       'int or float', repr(val)), 3)
+        if not (-ref.EPS <= v <= 1 + ref.EPS):
+            return Result('range', nontriv, viol('%s:big-attempt:outside-0-1' % cls, 'value %r at attempt %d' % (v, n),
+                                                 '[0, 1]', v), 3)
+        if spec[0] == 'lin' and v < float(ref.frac(spec[3])) - ref.EPS:
+            return Result('belowmin', nontriv, viol('LinearCredit:big-attempt:below-minimum',
+                                                    'value %r at attempt %d is below minimum_credit %s' % (v, n, spec[3]),
+                                                    '>= ' + spec[3], v), 3)
+        if w > v + ref.EPS or v > v200 + ref.EPS:
+            return Result('increase', nontriv, viol('%s:big-attempt:increases' % cls,
+                                                    'values %r (attempt 200), %r (attempt %d), %r (attempt %d)' % (v200, v, n, w, n + 1),
+                                                    'non-increasing', [v200, v, w]), 3)
+        if abs(v - ex) > ref.ROUND_BAND:
+            return Result('formula', nontriv, viol('%s:big-attempt:not-the-documented-value' % cls,
+                                                   'value %r at attempt %d, documentation gives %.6f' % (v, n, ex), ex, v), 3)
+        return Result('%s,%s' % ('one' if v == 1 else ('zero' if v == 0 else 'mid'),
+                                 'below-200' if v < v200 else 'as-at-200'), nontriv, None, 3)
+
+
+LIN_DEFAULTS = {'after': 1, 'steps': 4, 'min': '0.2'}      # docs/graders.md: "using the defaults, attempts 1, 2, 3, 4, 5,
+#                                                              and 6 are eligible for maximum credits of 1, 0.8, 0.6, 0.4, 0.2 and 0.2"
+
+
+class DefaultSchedules(Family):
+    """built-in schedules whose options are left at their DEFAULTS (wholly or in part), configured by keyword or by dict"""
+    name = 'sched_default_options'
+    timeout = 5.0
+    rule = ('LinearCredit with every subset of its three options omitted (given values: after {1, 2, 3, 6}, steps {1, 2, 4, 6}, '
+            'minimum {0, 0.1, 0.2, 0.5, 1}; quick: at most one option given, plus all three), passed as keywords or as one config '
+            'dict, x attempts 1..12, 200: the value documented for the defaults (1, 4, 0.2) where omitted. GeometricCredit() / '
+            'GeometricCredit({}) / ReciprocalCredit({}): 1 on the first attempt and a geometric (reciprocal) progression; the default factor is '
+            'documented as 0.5 in docs/graders.md and as 3/4 in the class itself, either is accepted. non-trivial = some option omitted')
+    ATTS = list(range(1, 13)) + [200]
+
+    def cases(self, tier):
+        afters, steps, mins = [None, 1, 2, 3, 6], [None, 1, 2, 4, 6], [None] + MINS
+        for how in ('kwargs', 'dict'):
+            for a in afters:
+                for st in steps:
+                    for m in mins:
+                        given = sum(x is not None for x in (a, st, m))
+                        if tier == 'quick' and given not in (0, 1, 3):
+                            continue
+                        if given == 3 and (how == 'kwargs' or (a, st) not in ((1, 4), (2, 2))):
+                            continue
+                        for n in self.ATTS:
+                            yield ('lin', how, a, st, m, n)
+            for kind in ('geo', 'rec'):
+                if kind == 'rec' and how == 'kwargs':
+                    continue        # ReciprocalCredit() is the 'rec' spec of every other family
+                for n in self.ATTS:
+                    yield (kind, how, None, None, None, n)
+
+    def check(self, case):
+        kind, how, a, st, m, n = case
+        config = {}
+        if a is not None:
+            config['decrease_credit_after'] = a
+        if st is not None:
+            config['decrease_credit_steps'] = st
+        if m is not None:
+            config['minimum_credit'] = ref.number(m)
+        cls = {'lin': LinearCredit, 'geo': GeometricCredit, 'rec': ReciprocalCredit}[kind]
+        try:
+            sched = cls(config) if how == 'dict' else cls(**config)
+            v, v2 = sched(n), sched(2)
+        except Exception as e:
+            return Result('raised', True, viol('defaults:%s:raised:%s' % (cls.__name__, type(e).__name__),
+                                               '%s(%r) at attempt %d raised %r' % (cls.__name__, config, n, e), 'a number', repr(e)), 2)
+        if isinstance(v, bool) or not isinstance(v, (int, float)) or not isinstance(v2, (int, float)):
+            return Result('badtype', True, viol('defaults:%s:not-a-number' % cls.__name__, 'schedule returned %r' % (v,)), 2)
+        if kind == 'lin':
+            spec = ['lin', LIN_DEFAULTS['after'] if a is None else a, LIN_DEFAULTS['steps'] if st is None else st,
+                    LIN_DEFAULTS['min'] if m is None else m]
+            wants = [float(ref.exact(spec, n))]
+        elif kind == 'rec':
+            wants = [1.0 / n]
+        else:
+            wants = [f ** (n - 1) for f in (0.5, 0.75)]
+            wants = [w for w, f in zip(wants, (0.5, 0.75)) if abs(v2 - f) <= ref.ROUND_BAND] or wants
+        omitted = kind != 'lin' or None in (a, st, m)
+        if n == 1 and v != 1:
+            return Result('first!=1', omitted, viol('defaults:%s:first-attempt-not-1' % cls.__name__,
+                                                    '%s(%r): value on the first attempt is %r' % (cls.__name__, config, v), 1, v), 2)
+        if all(abs(v - w) > ref.ROUND_BAND for w in wants):
+            return Result('wrong', omitted, viol('defaults:%s:not-the-documented-value' % cls.__name__,
+                                                 '%s(%r) [%s]: value %r at attempt %d, the documented defaults give %s'
+                                                 % (cls.__name__, config, how, v, n, ' or '.join('%.6f' % w for w in wants)),
+                                                 wants, v), 2)
+        return Result('%s:%s' % (kind, 'one' if v == 1 else 'less'), omitted, None, 2)
 
 
 # --------------------------------------------------------------------------- judging a graded result
@@ -370,8 +572,16 @@ class GraderFamily(Family):
             return self.memo[key], 0
         cls, kwargs, student_input = self.config(case)
         reseed()
-        base = self.memo[key] = cls(**kwargs)(None, student_input)
+        base = self.memo[key] = cls(**kwargs)(self.expect(case), student_input)
         return base, 1
+
+    def expect(self, case):
+        """the value of the edX `expect` attribute handed to the grader (None: answers are configured)"""
+        return None
+
+    def tidy(self, case, got):
+        """hook: strip what another option (debug) adds to the result before it is judged"""
+        return got
 
     def check(self, case):
         spec, attempt, flag = case[-3], case[-2], case[-1]
@@ -381,11 +591,11 @@ class GraderFamily(Family):
         kwargs['attempt_based_credit'] = sched
         if flag != 'default':
             kwargs['attempt_based_credit_msg'] = bool(flag)
-        grader = cls(**kwargs)
         got = exc = None
         reseed()
         try:
-            got = grader(None, student_input, **attempt_kw(attempt))
+            grader = cls(**kwargs)
+            got = self.tidy(case, grader(self.expect(case), student_input, **attempt_kw(attempt)))
         except Exception as e:      # judged below
             exc = e
         return judge(spec, attempt, flag, base, got, exc, rec, calls + 1)
@@ -439,7 +649,7 @@ class FeatureOff(Family):
             kwargs['attempt_based_credit'] = None
         reseed()
         try:
-            got = cls(**kwargs)(None, student_input, **attempt_kw(case[3]))
+            got = cls(**kwargs)(fam.expect(self.pseudo(case)), student_input, **attempt_kw(case[3]))
         except Exception as e:
             return Result('raised', True, viol('feature-off:raised:' + type(e).__name__,
                                                'attempt=%r passed to a grader without attempt_based_credit: %r' % (case[3], e),
@@ -472,9 +682,15 @@ BUILTIN_SMALL = [['lin', 1, 4, '0.2'], ['lin', 3, 3, '0.1'], ['lin', 1, 2, '0'],
 CUSTOM_NAMES = ['int1', 'int0', 'float1', 'float0', 'half', 'r99996', 'r99994', 'p3333', 'third', 'tiny',
                 'sixteenth', 'p1875', 'p999', 'eighth', 'p0004', 'p8']
 CUSTOM = [[k, v] for v in CUSTOM_NAMES for k in ('const', 'step')] + [['ramp', 'p8'], ['ramp', 'third'], ['ramp', 'float1']]
+CALLABLE_KINDS = [['as', 'subclass', 'lin', 1, 4, '0.2'], ['as', 'subclass', 'geo', '0.5'], ['as', 'object', 'step', 'half'],
+                  ['as', 'method', 'ramp', 'p8'], ['as', 'partial', 'const', 'half'], ['as', 'shared', 'lin', 1, 4, '0.2'],
+                  # thorough only:
+                  ['as', 'subclass', 'rec'], ['as', 'object', 'rec'], ['as', 'shared', 'geo', '0.5'],
+                  ['as', 'shared', 'step', 'half']]
 MIXED_TINY = [['lin', 1, 4, '0.2'], ['lin', 1, 2, '0'], ['rec'], ['step', 'r99996'], ['const', 'half']]
 OTHER_QUICK = [['lin', 1, 4, '0.2'], ['lin', 3, 3, '0.1'], ['lin', 1, 2, '0'], ['geo', '0.5'], ['geo', '0'], ['geo', '1'],
                ['rec'], ['step', 'sixteenth']]
+OTHER_SHORT = [['lin', 1, 4, '0.2'], ['lin', 3, 3, '0.1'], ['lin', 1, 2, '0'], ['rec'], ['step', 'sixteenth']]
 MIXED_SMALL = [['lin', 1, 4, '0.2'], ['lin', 1, 2, '0'], ['geo', '0.5'], ['geo', '1'], ['rec'],
                ['step', 'r99996'], ['const', 'half'], ['step', 'sixteenth']]
 
@@ -486,7 +702,8 @@ class StringBuiltin(GraderFamily):
     rule = ('StringGrader with answers full (1), half (0.5, msg "Meow!"), third (1/3) x inputs {full, half, third, wrong} '
             'x wrong_msg {"", "too bad"} x built-in schedules (quick: 13 configurations incl. minimum 0 / 1, factor 0 / 1; '
             'thorough: the full LinearCredit grid after 1-6 x steps 1-6 x minimum {0,0.1,0.2,0.5,1}, 10 factors, '
-            'ReciprocalCredit) x attempts {-3, 0, 1..12, 200, absent, None} x attempt_based_credit_msg {on, off, default}')
+            'ReciprocalCredit) x attempts {-3, 0, 1..12, 200, absent, None} x attempt_based_credit_msg '
+            '{on, off, default}, and attempts {-1, -10**6, 1000} (quick: with the note on only)')
     INPUTS = ['full', 'half', 'third', 'wrong']
     WRONG = ['', 'too bad']
 
@@ -499,7 +716,13 @@ class StringBuiltin(GraderFamily):
         return BUILTIN_SMALL if tier == 'quick' else LIN_GRID + GEO_GRID + [['rec']]
 
     def attempts(self, tier):
-        return ATTEMPTS_QUICK
+        return ATTEMPTS_QUICK + ATTEMPTS_FAR
+
+    def cases(self, tier):
+        for case in super(StringBuiltin, self).cases(tier):
+            if tier == 'quick' and case[-2] in ATTEMPTS_FAR and case[-1] != 1:
+                continue
+            yield case
 
     def config(self, case):
         inp, wm = case[0], case[1]
@@ -518,14 +741,15 @@ class TableCustom(GraderFamily):
     rule = ('author-defined ItemGrader (credit table: 0, 0.001, 0.3, 1/3, 0.5, 0.9999, 1, and 0 / 0.5 / 1 with a message) '
             'x author-defined recording schedules: constant v, "1 on the first attempt else v", and unrounded v**(n-1), '
             'v in {int 1, int 0, 1.0, 0.0, 0.5, 0.99996, 0.99994, 0.3333, 1/3, 0.00004, 0.0625, 0.1875, 0.999, 0.125, '
-            '0.0004, 0.8} x attempts {-3, 0, 1, 2, 7, absent} x note flag; the recorded schedule argument must be '
-            'max(attempt, 1)')
+            '0.0004, 0.8}, and 6 (thorough 10) schedules handed over as another kind of callable (an author subclass of each built-in class, '
+            'an object with __call__, a bound method, a functools.partial, and a schedule object that an older grader also uses) '
+            'x attempts {-3, 0, 1, 2, 7, absent} x note flag; the recorded schedule argument must be max(attempt, 1)')
 
     def prefixes(self, tier):
         return [(cname,) for cname, _ in CREDITS]
 
     def specs(self, tier):
-        return CUSTOM
+        return CUSTOM + (CALLABLE_KINDS[:6] if tier == 'quick' else CALLABLE_KINDS)
 
     def attempts(self, tier):
         return [-3, 0, 1, 2, 7, 'absent'] if tier == 'quick' else [-3, -1, 0, 1, 2, 3, 7, 200, 'absent', 'none']
@@ -638,14 +862,20 @@ OTHER = [
     ('formula', ['x+1', '1+x', '2*x', 'x']),
     ('numerical', ['3.5', '7/2', '3.6', '3']),
     ('sum', [['1', '4', 'n'], ['0', '4', 'n'], ['1', '3', 'n'], ['1', '4', 'n+1']]),
+    ('interval', ['[1,2)', '(1,2)', '(0,5]']),
+    ('matrix', ['[[1,2],[3,4]]', '[[1,2],[3,5]]']),
+    ('singlelist_nested', ['a,b;c,d', 'a,b;c,x']),
+    ('list_of_singlelists', [['a,b', 'c'], ['a,x', 'c'], ['x,y', 'c']]),
 ]
+OTHER_ADDED = ('interval', 'matrix', 'singlelist_nested', 'list_of_singlelists')
 
 
 class OtherGraders(GraderFamily):
     name = 'other_graders'
     rule = ('SingleListGrader (partial credit fractions 1, 2/3, 1/3, 0, surplus penalties; and partial_credit=False), '
             'FormulaGrader (answers worth 1 and 0.4 with a message), NumericalGrader (1 and 0.25), SumGrader (list input, '
-            'single result) x 4-6 student inputs each x 13 built-in + 8 mixed schedules x attempts {-3, 0, 1, 2, 3, 5, 12, '
+            'single result), IntervalGrader (1, 0.5, 0), MatrixGrader (1, 0.5 with a message, 0), SingleListGrader of '
+            'SingleListGraders (1, 0.75), ListGrader over [SingleListGrader, StringGrader] (quick: these with 5 schedules, no MatrixGrader, 2 IntervalGrader inputs) x 2-6 student inputs each x 13 built-in + 8 mixed schedules x attempts {-3, 0, 1, 2, 3, 5, 12, '
             '200, absent} x note flag')
 
     def prefixes(self, tier):
@@ -655,6 +885,13 @@ class OtherGraders(GraderFamily):
         if tier == 'quick':
             return OTHER_QUICK
         return BUILTIN_SMALL + [s for s in MIXED_SMALL if s not in BUILTIN_SMALL]
+
+    def cases(self, tier):
+        for case in super(OtherGraders, self).cases(tier):
+            if tier == 'quick' and case[0] in OTHER_ADDED and (case[2] not in OTHER_SHORT or case[0] == 'matrix'
+                                                               or (case[0] == 'interval' and case[1] > 1)):
+                continue
+            yield case
 
     def config(self, case):
         label, k = case[0], case[1]
@@ -674,7 +911,289 @@ class OtherGraders(GraderFamily):
         if label == 'sum':
             return SumGrader, {'answers': {'lower': '1', 'upper': '4', 'summand': 'n', 'summation_variable': 'n'},
                                'input_positions': {'lower': 1, 'upper': 2, 'summand': 3}}, inp
+        if label == 'interval':
+            return IntervalGrader, {'answers': '[1,2)'}, inp
+        if label == 'matrix':
+            answers = ({'expect': '[[1,2],[3,4]]', 'grade_decimal': 1},
+                       {'expect': '[[1,2],[3,5]]', 'grade_decimal': 0.5, 'msg': 'last entry'})
+            return MatrixGrader, {'answers': answers, 'max_array_dim': 2}, inp
+        if label == 'singlelist_nested':
+            return SingleListGrader, {'answers': [['a', 'b'], ['c', 'd']], 'delimiter': ';',
+                                      'subgrader': SingleListGrader(subgrader=StringGrader())}, inp
+        if label == 'list_of_singlelists':
+            return ListGrader, {'answers': [['a', 'b'], 'c'], 'ordered': True,
+                                'subgraders': [SingleListGrader(subgrader=StringGrader()), StringGrader()]}, inp
         raise HarnessError('unknown grader label %r' % (label,))
+
+
+FINE_GRADES = ['0', '0.0', '0.0001', '0.001', '0.3', '0.4999', '0.5', '0.9999', '1', '1.0']
+FINE_SCHEDULES = [['const', v] for v in ('tiny', 'p0001', 'p0004', 'half', 'r99994', 'r99996', 'p999', 'int0', 'float0', 'int1')]
+
+
+class RawListFine(GraderFamily):
+    name = 'raw_list_fine_products'
+    rule = ('LIST results (author-defined AbstractGrader) whose entries carry fine partial grades: every vector of length 2 '
+            '(thorough: and 3 with a leading entry from {0, 0.001, 1}) over {0, 0.0, 0.0001, 0.001, 0.3, 0.4999, 1, 1.0; thorough also 0.5, 0.9999} x '
+            'constant author schedules {0.00004, 0.0001, 0.0004, 0.5, 0.99994, 0.99996, 0.999, int 0, 0.0, int 1} x attempts {0, 2} '
+            'x note flag: products far below the fourth decimal keep ok="partial", values that round to 0 or 1 behave as 0 or 1')
+
+    def prefixes(self, tier):
+        k = [i for i, g in enumerate(FINE_GRADES) if tier != 'quick' or g not in ('0.5', '0.9999')]
+        for a in k:
+            for b in k:
+                yield ([a, b],)
+        if tier != 'quick':
+            for first in (0, 3, 8):
+                for a in k:
+                    for b in k:
+                        yield ([first, a, b],)
+
+    def specs(self, tier):
+        return FINE_SCHEDULES
+
+    def attempts(self, tier):
+        return [0, 2]
+
+    def config(self, case):
+        entries = []
+        for i, gi in enumerate(case[0]):
+            grade = ref.number(FINE_GRADES[gi])
+            entries.append({'ok': ref.ok_of(grade), 'grade_decimal': grade, 'msg': '' if i else 'first box'})
+        return RawGrader, {'result': {'overall_message': '', 'input_list': entries}}, ['in'] * len(entries)
+
+
+PRE_RE = re.compile(r'<pre>.*</pre>', re.S)
+TAIL_RE = re.compile(r'(\s|<br/>)+$')
+
+
+class DebugOn(GraderFamily):
+    name = 'debug_graders'
+    rule = ('the graders below with debug=True (the debug log is appended to the message after the note): StringGrader x 4 inputs, '
+            'ordered ListGrader x 4 input vectors, (thorough:) SingleListGrader x 3 inputs x 5 schedules x attempts {-3, 0, 1, 2, 5, 200, '
+            'absent} x note flag; the <pre> block of the log (and separators left at the end) is removed, what remains is judged against '
+            'the result of the same grader WITHOUT debug and without the feature')
+    INPUTS = {'string': ['full', 'half', 'third', 'wrong'],
+              'list': [['f0', 'f1'], ['p0', 'x'], ['x', 'h1'], ['x', 'y']],
+              'singlelist': ['a,b,c', 'a,b', 'x']}
+
+    def prefixes(self, tier):
+        return [(kind, k) for kind in (('string', 'list') if tier == 'quick' else ('string', 'list', 'singlelist'))
+                for k in range(len(self.INPUTS[kind]))]
+
+    def specs(self, tier):
+        return MIXED_TINY
+
+    def build(self, case, debug):
+        kind, k = case[0], case[1]
+        inp = copy.deepcopy(self.INPUTS[kind][k])
+        extra = {'debug': True} if debug else {}
+        if kind == 'string':
+            cls, kwargs, _ = StringBuiltin().config(('x', 1))
+        elif kind == 'list':
+            cls, kwargs = ListGrader, {'answers': [ListVectors.answer(0), ListVectors.answer(1)],
+                                       'subgraders': StringGrader(), 'ordered': True}
+        else:
+            cls, kwargs = SingleListGrader, {'answers': ['a', 'b', 'c'], 'subgrader': StringGrader()}
+        kwargs.update(extra)
+        return cls, kwargs, inp
+
+    def config(self, case):
+        # GraderFamily.check adds the schedule to these options; base_result is overridden to leave debug off
+        return self.build(case, True)
+
+    def base_result(self, case):
+        if not hasattr(self, 'memo'):
+            self.memo = {}
+        key = json.dumps(list(case[:-3]))
+        if key in self.memo:
+            return self.memo[key], 0
+        cls, kwargs, inp = self.build(case, False)
+        base = self.memo[key] = cls(**kwargs)(None, inp)
+        return base, 1
+
+    def tidy(self, case, got):
+        if not isinstance(got, dict):
+            return got
+        key = 'overall_message' if 'input_list' in got else 'msg'
+        if isinstance(got.get(key), str):
+            text, n = PRE_RE.subn('', got[key])
+            if n != 1:
+                raise HarnessError('debug=True but no debug log in %r' % (got[key],))
+            got = dict(got)
+            got[key] = TAIL_RE.sub('', text)
+        return got
+
+
+EXPECT = [
+    # kind, expect attribute, student inputs
+    ('string', 'cat', ['cat', 'dog']),
+    ('string_any', None, ['whatever', '']),
+    ('formula', 'x+1', ['1+x', 'x']),
+    ('numerical', '3.5', ['7/2', '3']),
+    ('singlelist', 'a, b', ['b,a', 'a,x', 'x,y']),
+]
+
+
+class ExpectInferred(GraderFamily):
+    name = 'answers_inferred_from_expect'
+    rule = ('the way the documentation itself calls the graders: NO answers configured, the answer is inferred from the edX '
+            'expect attribute -- StringGrader("cat"), StringGrader(accept_any, expect None), FormulaGrader("x+1"), '
+            '(thorough:) NumericalGrader("3.5"), SingleListGrader("a, b") x 2-3 student inputs x 5 (thorough 8) schedules x attempts {-3, 0, 1, 2, 5, 200, '
+            'absent} x note flag, judged against the same call on a grader without the feature')
+
+    def prefixes(self, tier):
+        return [(kind, k) for kind, _, inputs in EXPECT for k in range(len(inputs))
+                if tier != 'quick' or kind != 'numerical']
+
+    def specs(self, tier):
+        return MIXED_TINY if tier == 'quick' else OTHER_QUICK
+
+    def row(self, case):
+        return [r for r in EXPECT if r[0] == case[0]][0]
+
+    def expect(self, case):
+        return self.row(case)[1]
+
+    def config(self, case):
+        kind, _, inputs = self.row(case)
+        inp = inputs[case[1]]
+        if kind == 'string':
+            return StringGrader, {}, inp
+        if kind == 'string_any':
+            return StringGrader, {'accept_any': True}, inp
+        if kind == 'formula':
+            return FormulaGrader, {'variables': ['x']}, inp
+        if kind == 'numerical':
+            return NumericalGrader, {'tolerance': 1e-6}, inp
+        return SingleListGrader, {'subgrader': StringGrader()}, inp
+
+
+REG_KINDS = [
+    # grader kind, classes on which the defaults may be registered so that the TOP-LEVEL grader has the feature on
+    ('string', ['AbstractGrader', 'ItemGrader', 'StringGrader']),
+    ('list', ['AbstractGrader', 'ListGrader']),
+    ('nested', ['AbstractGrader', 'ListGrader']),
+    ('singlelist', ['AbstractGrader', 'SingleListGrader']),
+]
+REG_CLASSES = {'AbstractGrader': AbstractGrader, 'ItemGrader': ItemGrader, 'StringGrader': StringGrader,
+               'ListGrader': ListGrader, 'SingleListGrader': SingleListGrader}
+REG_INPUTS = {'string': ['full', 'half', 'wrong'],
+              'list': [['f0', 'f1'], ['p0', 'x'], ['x', 'y']],
+              'nested': [['f0', 'f1', 'f2'], ['x', 'p1', 'f2'], ['x', 'y', 'z']],
+              'singlelist': ['a,b,c', 'a,b', 'x']}
+REG_SPECS = [['rec'], ['lin', 1, 4, '0.2'], ['const', 'half']]
+REG_OTHER = ['lin', 2, 2, '0.5']
+
+
+class RegisteredDefaults(Family):
+    """the feature switched on course-wide through register_defaults (docs/plugins.md, plugins/defaults_sample.py)"""
+    name = 'registered_defaults'
+    timeout = 10.0
+    rule = ('attempt_based_credit is NOT passed to the grader but registered as a default (register_defaults) on AbstractGrader, '
+            'ItemGrader or the grader\'s own class, so that in nested graders every subgrader object has it as well: grader {String, '
+            'ordered List, nested List, SingleList} x 3 inputs x registered schedule {Reciprocal, Linear, lambda 0.5} x note {default, '
+            'registered False [thorough: registered False + passed True]} x option at the top-level grader {omitted, explicitly None '
+            '= disabled, explicitly another schedule} x attempts {0, 1, 3, absent}: the grades of the feature-off result scaled ONCE by '
+            'the schedule in force; disabled -> result unchanged and no error without an attempt. The registrations are removed '
+            'after every case')
+
+    def cases(self, tier):
+        notes = ('default', 'reg_false') if tier == 'quick' else ('default', 'reg_false', 'reg_false_pass_true')
+        for kind, classes in REG_KINDS:
+            for where in classes:
+                for k in range(len(REG_INPUTS[kind])):
+                    for spec in REG_SPECS:
+                        for note in notes:
+                            for override in ('omitted', 'none', 'other'):
+                                if override != 'omitted' and spec != REG_SPECS[0] and tier == 'quick':
+                                    continue
+                                for att in (0, 1, 3, 'absent'):
+                                    yield (kind, where, k, spec, note, override, att)
+
+    @staticmethod
+    def build(kind, extra):
+        if kind == 'string':
+            cls, kwargs, _ = StringBuiltin().config(('x', 1))
+        elif kind == 'list':
+            cls, kwargs = ListGrader, {'answers': [ListVectors.answer(0), ListVectors.answer(1)],
+                                       'subgraders': StringGrader(), 'ordered': True}
+        elif kind == 'nested':
+            cls, kwargs, _ = ListVectors().config(([1, 1, 1], 'nested'))
+        else:
+            cls, kwargs = SingleListGrader, {'answers': ['a', 'b', 'c'], 'subgrader': StringGrader()}
+        kwargs.update(extra)
+        return cls(**kwargs)
+
+    def describe(self, case):
+        kind, where, k, spec, note, override, att = case
+        return {'grader': kind, 'student_input': REG_INPUTS[kind][k],
+                'registered': '%s.register_defaults({attempt_based_credit: %s%s})'
+                              % (where, ref.describe_spec(spec), '' if note == 'default' else ', attempt_based_credit_msg: False'),
+                'passed to the top-level grader': {'omitted': 'nothing', 'none': 'attempt_based_credit=None',
+                                                   'other': 'attempt_based_credit=' + ref.describe_spec(REG_OTHER)}[override]
+                                                  + (', attempt_based_credit_msg=True' if note == 'reg_false_pass_true' else ''),
+                'attempt': att}
+
+    def check(self, case):
+        kind, where, k, spec, note, override, att = case
+        inp = REG_INPUTS[kind][k]
+        if not hasattr(self, 'memo'):
+            self.memo = {}
+        calls = 1
+        key = json.dumps([kind, k])
+        if key not in self.memo:
+            self.memo[key] = self.build(kind, {})(None, copy.deepcopy(inp))
+            calls += 1
+        base = self.memo[key]
+        target = REG_CLASSES[where]
+        saved = {name: c.default_values for name, c in REG_CLASSES.items()}
+        if any(v is not None for v in saved.values()):
+            raise HarnessError('registered defaults were left behind: %r' % (saved,))
+        sched, rec = make_schedule(spec)
+        registered = {'attempt_based_credit': sched}
+        if note != 'default':
+            registered['attempt_based_credit_msg'] = False
+        extra, in_force, rec_in_force = {}, spec, rec
+        if override == 'none':
+            extra['attempt_based_credit'] = None
+            in_force = None
+        elif override == 'other':
+            extra['attempt_based_credit'], rec_in_force = make_schedule(REG_OTHER)
+            in_force = REG_OTHER
+        if note == 'reg_false_pass_true':
+            extra['attempt_based_credit_msg'] = True
+        flag = 1 if note in ('default', 'reg_false_pass_true') else 0
+        got = exc = None
+        try:
+            target.register_defaults(registered)
+            grader = self.build(kind, extra)
+            got = grader(None, copy.deepcopy(inp), **attempt_kw(att))
+        except Exception as e:
+            exc = e
+        finally:
+            for name, c in REG_CLASSES.items():
+                c.default_values = saved[name]
+        if in_force is None:
+            positive = any(e['grade_decimal'] > 0 for e in entries_of(base)[1])
+            if exc is not None:
+                return Result('disabled-raised', True,
+                              viol('registered-default:explicit-None-does-not-disable:' + type(exc).__name__,
+                                   'attempt_based_credit=None passed to a grader whose class has a registered schedule, attempt=%r: %r'
+                                   % (att, exc), base, repr(exc)), calls)
+            if got != base:
+                return Result('disabled-changed', True,
+                              viol('registered-default:explicit-None-does-not-disable',
+                                   'attempt_based_credit=None passed to a grader whose class has a registered schedule, attempt=%r: the '
+                                   'result differs from the feature-off result' % (att,), base, got), calls)
+            return Result('disabled:' + ('positive' if positive else 'all-zero'), positive and att != 1, None, calls)
+        if override == 'other' and rec is not None and rec:
+            return Result('wrong-schedule', True, viol('registered-default:overridden-schedule-was-called',
+                                                       'the registered schedule was called with %r although another one was passed' % (rec,),
+                                                       [], rec), calls)
+        res = judge(in_force, att, flag, base, got, exc, rec_in_force, calls)
+        if res.violation is not None:
+            res.violation['sig'] = 'registered-default:' + res.violation['sig']
+        return res
 
 
 HIST_ATTEMPTS = ['absent', None, 1, 3, 7, 0]
@@ -704,25 +1223,44 @@ def _hist_call(g, inp, att):
 class AttemptHistory(Family):
     """the attempt number of one call must not carry over to the next call on the same grader object"""
     name = 'attempt_history'
-    rule = ('grader kinds {String, List, SingleList} x schedules {Linear, Geometric, author ramp} x every sequence of 2 [thorough 3] '
-            'calls over attempts {absent, None, 1, 3, 7, 0} x inputs on ONE grader object: each call must give what a fresh grader '
-            'gives for that call alone (in particular: no attempt number -> ConfigError even after a call that supplied one)')
+    rule = ('grader kinds {String, List, SingleList} x schedules {Linear, Geometric, author ramp} x sequences of calls on ONE grader '
+            'object; quick: two different inputs x every pair of attempts from {absent, None, 1, 3, 7, 0}, and the SAME input twice '
+            '(every input of the kind) x every pair from {absent, 1, 3, 0}; thorough: every sequence of 2 calls over attempts x all '
+            'inputs, and every sequence of 3 calls over the attempts on inputs 0, 1, 0: each call must give what a fresh grader '
+            'gives for that call alone (in particular: no attempt number -> ConfigError even after a call that supplied one, and a '
+            'grade is not scaled a second time)')
+
+    SAME = [0, 2, 3, 5]     # indices into HIST_ATTEMPTS: absent, 1, 3, 0
 
     def cases(self, tier):
-        n = 3 if tier == 'thorough' else 2
+        A = range(len(HIST_ATTEMPTS))
         for kind in ('string', 'list', 'singlelist'):
+            n_inputs = len(_hist_make(kind, 'ramp')[1])
             for sched in ('linear', 'geometric', 'ramp'):
-                for seq in itertools.product(range(len(HIST_ATTEMPTS)), repeat=n):
-                    yield (kind, sched, seq)
+                if tier == 'quick':
+                    for a in A:                       # two different inputs, every pair of attempts
+                        for b in A:
+                            yield (kind, sched, [[a, 0], [b, 1]])
+                    for ii in range(n_inputs):        # the same input twice
+                        for a in self.SAME:
+                            for b in self.SAME:
+                                yield (kind, sched, [[a, ii], [b, ii]])
+                else:
+                    steps = [(ai, ii) for ii in range(n_inputs) for ai in A]
+                    for seq in itertools.product(steps, repeat=2):
+                        yield (kind, sched, [list(x) for x in seq])
+                    for seq in itertools.product(A, repeat=3):      # inputs 0, 1, 0: the third call repeats the first input
+                        yield (kind, sched, [[seq[0], 0], [seq[1], 1], [seq[2], 0]])
 
     def check(self, case):
         kind, sched, seq = case
         g, inputs = _hist_make(kind, sched)
         calls = 0
         outcomes = set()
-        for step, ai in enumerate(seq):
+        atts = [HIST_ATTEMPTS[ai] for ai, _ in seq]
+        for step, (ai, ii) in enumerate(seq):
             att = HIST_ATTEMPTS[ai]
-            inp = inputs[step % len(inputs)]
+            inp = inputs[ii]
             got = _hist_call(g, inp, att)
             fresh, _ = _hist_make(kind, sched)
             exp = _hist_call(fresh, inp, att)
@@ -732,9 +1270,19 @@ class AttemptHistory(Family):
                 return Result('differs', True,
                               viol('history:%s' % ('missing-attempt-not-refused-after-earlier-call' if exp[0] == 'err' and got[0] == 'ok'
                                                    else 'call-depends-on-earlier-attempt'),
-                                   '%s grader, %s schedule, attempts %r: call %d (input %r, attempt %r) gave %r; a fresh grader gives %r'
-                                   % (kind, sched, [HIST_ATTEMPTS[i] for i in seq], step + 1, inp, att, got, exp), exp, got), calls)
-        return Result('+'.join(sorted(outcomes)), len(outcomes) > 1, None, calls)
+                                   '%s grader, %s schedule, attempts %r, inputs %r: call %d (input %r, attempt %r) gave %r; a fresh grader gives %r'
+                                   % (kind, sched, atts, [inputs[i] for _, i in seq], step + 1, inp, att, got, exp), exp, got), calls)
+        repeated = len(set(ii for _, ii in seq)) < len(seq)
+        return Result('+'.join(sorted(outcomes)) + (',same-input-again' if repeated else ''),
+                      len(outcomes) > 1 or (repeated and 'graded' in outcomes), None, calls)
+
+
+# (Genuine defect found by this family, repaired in /repo -- see KNOWN_FINDINGS.json.)  On the pinned tree every case of
+# the family registered_defaults failed -- a schedule registered
+# through register_defaults (the course-wide switch of docs/plugins.md / plugins/defaults_sample.py) makes EVERY grading call
+# raise TypeError('Object of type ReciprocalCredit is not JSON serializable') from AbstractGrader.create_debuglog
+# (json.dumps(self.modified_defaults)), whatever the attempt.
+PENDING_REGISTERED_DEFAULTS = False     # the family found a genuine defect (repaired): it runs
 
 
 def families(tier):
@@ -754,5 +1302,10 @@ def families(tier):
                        {'quick': 200, 'thorough': 5000},
                        'ReciprocalCredit x attempts 1..200 (thorough 1..5000) against exactly 1/n'),
     ]
+    lin_corners = [spec for spec in LIN_GRID if spec[1] in (1, 6) and spec[2] in (1, 6)]
+    big = BigAttempts({'quick': lin_corners + GEO_GRID + [['rec']], 'thorough': LIN_GRID + GEO_GRID_MORE + [['rec']]})
     graders = [StringBuiltin(), TableCustom(), ListVectors(), RawResults(), OtherGraders()]
-    return fams + [CoexistingSchedules()] + graders + [FeatureOff(graders), AttemptHistory()]
+    more = [RawListFine(), DebugOn(), ExpectInferred()]
+    pending = [] if PENDING_REGISTERED_DEFAULTS else [RegisteredDefaults()]
+    return (fams + [CoexistingSchedules(), big, DefaultSchedules()] + graders + [FeatureOff(graders)] + more
+            + pending + [AttemptHistory()])
